@@ -653,7 +653,10 @@ def run_unit(vu, scratch_dir, prop):
                 res.append(mk(oid, k, fn, "undecided", reason="rlimit exceeded (solver instability, not a refutation)"))
             else:
                 kk, line, msg = [x for x in kinds if x[0] != "rlimit"][0]
-                gl = text.split("\n")[line - 1].strip() if 0 < line <= len(text.split("\n")) else ""
+                tl = text.split("\n")
+                gl = tl[line - 1].strip() if 0 < line <= len(tl) else ""
+                if len(gl) < 24:       # e.g. `({` : show the beginning of the clause that follows
+                    gl = " ".join(x.strip() for x in tl[line - 1:line + 3])
                 res.append(mk(oid, k, fn, "violation", checks=1, time_s=round(wall, 2), has_input=False,
                               reason="Verus: %s at generated line %d: `%s`" % (kk, line, gl[:160]), verifier_output=msg))
         else:
